@@ -3,7 +3,8 @@ from bounded import gen
 from checks.e2e_common import run_e2e_property
 
 EXPLANATION = (
-    "P tier: constant extraction for coordinates (ConstantFolder contracts shared with C11). B tier (bounded): programs "
+    "P tier: constant extraction for coordinates (ConstantFolder contracts shared with C11; _try_extract_const_value; _extract_coordinate), the IR builder's place_entity, "
+    "and the placer: a place() becomes exactly one placement with the user's prototype at the user's tile (_place_user_entity). B tier (bounded): programs "
     "placing entities at literal / int-variable / loop-iterator / function-argument coordinates (negative coordinates, "
     "multi-tile prototypes) are compiled by the real pipeline, with and without power poles; the multiset of "
     "non-compiler entities of the blueprint must be exactly one entity of the given prototype per executed place(), "
@@ -11,11 +12,23 @@ EXPLANATION = (
 )
 
 
+def _fixed_box(cr):
+    from bounded import pipeline
+    from bounded.contract_enum import run_contract_enum
+    from contracts import c09
+    pipeline.ensure_repo()
+    args = c09.fixed_positions_arg_sets()
+    cr.bounded_check(run_contract_enum, "fixed-positions-box", c09.fixed_positions, args,
+                     f"{len(args)} plans (user entity at 15 tiles x 3 footprints, a grid pole at 3 centres, a free combinator): the user's tile is the ONLY value in the "
+                     "entity's CP-SAT domain, so no solver outcome can move it (contract evaluated on the real IntegerLayoutEngine._identify_fixed_positions / "
+                     "_create_position_variables with a real CP-SAT model)")
+
+
 def run(tier):
     progs = gen.c09_scope(tier)
     return run_e2e_property("C09", tier, EXPLANATION, "DESIGN §4 C09",
                             [("e2e-placement", progs, "place() at constant coordinates: literals, int variables, loops, calls, multi-tile")],
-                            contract_modules=["contracts.c11", "contracts.c15", "contracts.c09", "contracts.c02"],
+                            contract_modules=["contracts.c11", "contracts.c15", "contracts.c09", "contracts.c02"], extra=_fixed_box,
                             extra_modes=[("poles-medium", {"power_pole_type": "medium"})] + (
                                 [("poles-small", {"power_pole_type": "small"}), ("poles-big", {"power_pole_type": "big"}),
                                  ("poles-substation", {"power_pole_type": "substation"})] if tier != "quick" else []))
